@@ -411,7 +411,7 @@ func parentMain(ck *Check, tier string, workers int, seed int64, capS int) int {
 			// a worker observes the wall-clock cap itself; one that is still alive long after it is stuck outside every
 			// place where the cap is looked at (code under test that blocks or loops for ever): it is killed, and the run ends as
 			// an infrastructure error rather than never
-			hard := time.Until(deadline) + time.Duration(capS/2+180)*time.Second
+			hard := time.Until(deadline) + time.Duration(2*capS+600)*time.Second
 			cctx, cancel := context.WithTimeout(context.Background(), hard)
 			defer cancel()
 			cmd := exec.CommandContext(cctx, self, "-worker", ck.ID, tier, strconv.Itoa(w), strconv.Itoa(workers),
@@ -420,7 +420,7 @@ func parentMain(ck *Check, tier string, workers int, seed int64, capS int) int {
 			b, err := cmd.CombinedOutput()
 			res[w].log = string(b)
 			if cctx.Err() != nil {
-				res[w].err = fmt.Errorf("worker %d did not end within %v after the wall-clock cap (the code under test blocks or loops outside the explorer's control); killed", w, time.Duration(capS/2+180)*time.Second)
+				res[w].err = fmt.Errorf("worker %d did not end within %v after the wall-clock cap (the code under test blocks or loops outside the explorer's control); killed", w, time.Duration(2*capS+600)*time.Second)
 				return
 			}
 			if err != nil {
